@@ -34,6 +34,8 @@ def window_samples(N, name):
 
 def ref_periodogram(x, w, NFFT):
     x = np.asarray(x)
+    if x.dtype.kind in 'iu':
+        x = x.astype(float)
     xw = x * w
     F = np.fft.fft(xw, NFFT, axis=0)
     P = np.abs(F) ** 2 / x.shape[0]
@@ -45,7 +47,7 @@ def ref_periodogram(x, w, NFFT):
 def post_speriodogram(x, NFFT, detrend, sampling, scale_by_freq, window, OLD, result):
     c = _ctx()
     xa = OLD.x0
-    if xa is None or xa.ndim not in (1, 2) or xa.shape[0] < 1 or xa.dtype.kind not in 'fci' or not np.all(np.isfinite(xa)):
+    if xa is None or xa.ndim not in (1, 2) or xa.shape[0] < 1 or xa.dtype.kind not in 'fciu' or not np.all(np.isfinite(xa)):
         return c.discard('speriodogram:domain')
     if detrend or scale_by_freq is True:
         return c.discard('speriodogram:detrend-or-scaling-outside-statement')
@@ -83,7 +85,7 @@ def post_CORRELOGRAMPSD(X, Y, lag, window, norm, NFFT, correlation_method, resul
     c = _ctx()
     try:
         xa = np.asarray(X)
-        ok = xa.ndim == 1 and len(xa) >= 1 and (xa.dtype.kind in 'fc' or (xa.dtype.kind == 'i' and xa.dtype.itemsize == 8))
+        ok = xa.ndim == 1 and len(xa) >= 1 and xa.dtype.kind in 'fciu'
     except Exception:
         ok = False
     if not ok:
@@ -95,8 +97,9 @@ def post_CORRELOGRAMPSD(X, Y, lag, window, norm, NFFT, correlation_method, resul
         return c.discard('CORRELOGRAMPSD:not-the-wiener-khinchin-configuration')
     feats = {'fn': 'CORRELOGRAMPSD', 'cplx': bool(np.iscomplexobj(xa)), 'method': correlation_method,
              'nfft_odd': bool(nfft % 2)}
-    ref = np.abs(np.fft.fft(xa, nfft)) ** 2 / N
+    ref = np.abs(np.fft.fft(xa.astype(complex if np.iscomplexobj(xa) else float), nfft)) ** 2 / N
     sc = float(np.max(ref)) or 1.0
+    feats['dtype'] = xa.dtype.name
     c.compare('wiener-khinchin:correlogram-equals-rectangular-periodogram', np.asarray(result), ref, TOL, feats,
               scale=sc, detail={'N': N, 'NFFT': nfft})
 
@@ -143,6 +146,13 @@ def setup(c):
 KINDS = ['noise', 'tones', 'const', 'int', 'dyn', 'impulse']
 
 
+def _variant(d, i):
+    """Every 5th sampled case stores the record differently: complex dtype with an exactly zero imaginary part
+    (complex data: all NFFT bins are returned) or a narrow integer dtype at ADC amplitude (real data)."""
+    if i % 5 == 3:
+        d['variant'] = 'zimag' if d['cplx'] else gen.NARROW[(i // 5) % len(gen.NARROW)]
+
+
 def cases(c):
     rng = c.rng('cases')
     names = sorted(smod('window').window_names)
@@ -160,6 +170,7 @@ def cases(c):
         out.append({'form': gen.pick(rng, ['function', 'class', 'function2d']), 'window': gen.pick(rng, names), 'N': N,
                     'NFFT': int(gen.pick(rng, gen.nfft_options(N))), 'cplx': int(rng.integers(0, 2)),
                     'kind': gen.pick(rng, KINDS), 'cols': int(rng.integers(1, 5)), 'i': i})
+        _variant(out[-1], i)
     for N in range(2, 7):
         for name in ('hann', 'hamming', 'blackman', 'kaiser'):
             for cols in (1, 2, 3):
@@ -170,6 +181,7 @@ def cases(c):
         out.append({'form': 'correlogram', 'N': N, 'NFFT': int(gen.pick(rng, [max(1, 2 * N - 1), 2 * N, 2 * N + 1, gen.next_prime(2 * N), 4 * N])),
                     'cplx': int(rng.integers(0, 2)), 'kind': gen.pick(rng, ['noise', 'tones', 'const', 'int', 'dyn']),
                     'method': gen.pick(rng, ['xcorr', 'CORRELATION']), 'window': 'rectangular', 'cols': 0, 'i': i})
+        _variant(out[-1], i)
     return out
 
 
@@ -178,9 +190,9 @@ def run_case(c, d):
     N, NFFT, cplx, name = d['N'], d['NFFT'], bool(d['cplx']), d['window']
     rect = name in ('rectangular', 'rectangle')
     c.set_nontrivial((not rect) or NFFT != N or cplx)
-    feats = {'form': d['form'], 'cplx': cplx, 'rect': rect}
+    feats = {'form': d['form'], 'cplx': cplx, 'rect': rect, 'variant': d.get('variant')}
     if d['form'] == 'correlogram':
-        x = gen.data({'kind': d['kind'], 'N': N, 'cplx': cplx}, c.rng(d, 'x'))
+        x = gen.data({'kind': d['kind'], 'N': N, 'cplx': cplx, 'variant': d.get('variant')}, c.rng(d, 'x'))
         c.set_nontrivial(True)
         try:
             spectrum.CORRELOGRAMPSD(x, lag=N - 1, window='rectangular', norm='biased', NFFT=NFFT,
@@ -190,9 +202,9 @@ def run_case(c, d):
         return
     if d['form'] == 'function2d':
         cols = max(1, d['cols'])
-        x = np.stack([gen.data({'kind': d['kind'], 'N': N, 'cplx': cplx}, c.rng(d, 'x', j)) for j in range(cols)], axis=1)
+        x = np.stack([gen.data({'kind': d['kind'], 'N': N, 'cplx': cplx, 'variant': d.get('variant')}, c.rng(d, 'x', j)) for j in range(cols)], axis=1)
     else:
-        x = gen.data({'kind': d['kind'], 'N': N, 'cplx': cplx}, c.rng(d, 'x'))
+        x = gen.data({'kind': d['kind'], 'N': N, 'cplx': cplx, 'variant': d.get('variant')}, c.rng(d, 'x'))
     try:
         w = window_samples(N, name)
     except Exception:
